@@ -21,6 +21,8 @@ HARNESS_CC := engines/main.cc engines/common.cc engines/stubs.cc engines/tableli
 FLAGS_asan := -O1 -g -fno-omit-frame-pointer -fsanitize=address,undefined -fno-sanitize=alignment -fno-sanitize-recover=undefined
 FLAGS_tsan := -O1 -g -fno-omit-frame-pointer -fsanitize=thread
 FLAGS_plain := -O2 -g
+# coverage build (selftest/coverage.sh only; not part of `all`)
+FLAGS_cov := -O1 -g -fprofile-instr-generate -fcoverage-mapping
 REPO_DEFS := -include sim/repo_config.h -I$(REPO) -I$(REPO)/mtbl -DMTBL_VERIF -Isim -msse4.2 -Wno-macro-redefined -include sim/seams/pthread.h
 
 SEAM_mtbl/writer.c := -include sim/seams.h -Dwrite=sim_write -Dopen=sim_open -Dclose=sim_close -Ddup=sim_dup
@@ -51,7 +53,7 @@ $(B)/$(1)/h/trap.o: sim/trap.c sim/trap.h
 $(B)/$(1)/mtblsim: $(NOSAN) $(B)/$(1)/h/trap.o $(patsubst %.c,$(B)/$(1)/repo/%.o,$(REPO_C)) $(patsubst %.cc,$(B)/$(1)/h/%.o,$(HARNESS_CC))
 	$(CXX) $$(FLAGS_$(1)) -Wl,--wrap=__assert_fail -rdynamic $$^ -o $$@ $(LIBS)
 endef
-$(foreach v,$(VARIANTS),$(eval $(call VARIANT_RULES,$(v))))
+$(foreach v,$(VARIANTS) cov,$(eval $(call VARIANT_RULES,$(v))))
 
 # the repo's CLI tools, linked against the plain objects (seams pass through, pthreads are real)
 $(B)/tools/%: $(REPO)/src/%.c $(NOSAN) $(patsubst %.c,$(B)/plain/repo/%.o,$(REPO_C))
